@@ -1,10 +1,110 @@
 //! Property-directed generators for framework cases (boundary generators of DESIGN.md section 5).
 
-use crate::fw::FwCase;
+use crate::fw::{gen_event, gen_history, FwCase};
+use crate::genm::{self, DistMode, GenCfg};
 use crate::util::Prng;
+use maybenot::{Machine, MachineId, TriggerEvent};
 
-pub fn gen_kind(kind: &str, _p: &mut Prng, _id: String) -> Option<FwCase> {
+fn completion_for(p: &mut Prng, n: usize) -> TriggerEvent {
+    // completions for the right machine, other machines and unknown ids
+    let id = match p.below(10) {
+        0..=5 => p.below(n.max(1) as u64) as usize,
+        6 | 7 => n,
+        8 => usize::MAX,
+        _ => u32::MAX as usize,
+    };
+    let m = MachineId::from_raw(id);
+    match p.below(3) {
+        0 => TriggerEvent::PaddingSent { machine: m },
+        1 => TriggerEvent::BlockingBegin { machine: m },
+        _ => TriggerEvent::TimerBegin { machine: m },
+    }
+}
+
+/// C07: limited actions, histories heavy on completions, self-transitions, leave-and-return.
+fn gen_c07(p: &mut Prng, id: String) -> FwCase {
+    let mut cfg = GenCfg::default();
+    cfg.dist = *p.pick(&[DistMode::Const, DistMode::Uniform]);
+    cfg.max_states = p.range(1, 4) as usize;
+    cfg.density = 55;
+    cfg.kinds = vec![1, 2, 3];
+    cfg.allow_signal = p.chance(1, 4);
+    cfg.allow_end = p.chance(1, 4);
+    let n = p.range(1, 3) as usize;
+    let machines: Vec<Machine> = (0..n).map(|_| genm::gen_machine(p, &cfg)).collect();
+    let single = p.chance(2, 3);
+    let ncalls = p.range(5, 60);
+    let mut t: i128 = 0;
+    let mut calls = Vec::new();
+    for _ in 0..ncalls {
+        t += p.below(3_000_000) as i128;
+        let k = if single { 1 } else { p.range(1, 4) };
+        let evs: Vec<TriggerEvent> = (0..k).map(|_| if p.chance(3, 5) { completion_for(p, n) } else { gen_event(p, n) }).collect();
+        calls.push((t, evs));
+    }
+    FwCase { id, kind: "c07".into(), machines, fp: 0.0, fb: 0.0, t0: 0, calls, rng_seed: p.next(), extreme: 0, ni: None }
+}
+
+/// C08: counters everywhere, several machines hitting zero in one call, copy meets saturation.
+fn gen_c08(p: &mut Prng, id: String) -> FwCase {
+    let mut cfg = GenCfg::default();
+    cfg.dist = *p.pick(&[DistMode::Const, DistMode::Uniform]);
+    cfg.max_states = p.range(1, 4) as usize;
+    cfg.density = 60;
+    cfg.counters = true;
+    cfg.allow_signal = false;
+    let n = p.range(1, 4) as usize;
+    let machines: Vec<Machine> = (0..n).map(|_| genm::gen_machine(p, &cfg)).collect();
+    let single = p.chance(1, 2);
+    let calls = gen_history(p, n, single, 60, false);
+    FwCase { id, kind: "c08".into(), machines, fp: 0.0, fb: 0.0, t0: 0, calls, rng_seed: p.next(), extreme: 0, ni: None }
+}
+
+/// C09: machines that signal on external events, LimitReached, CounterZero and Signal.
+fn gen_c09(p: &mut Prng, id: String) -> FwCase {
+    let mut cfg = GenCfg::default();
+    cfg.dist = DistMode::Const;
+    cfg.max_states = p.range(1, 3) as usize;
+    cfg.density = 60;
+    cfg.allow_signal = true;
+    cfg.allow_end = p.chance(1, 3);
+    cfg.prob_one = p.chance(1, 2);
+    let n = p.range(1, 4) as usize;
+    let machines: Vec<Machine> = (0..n).map(|_| genm::gen_machine(p, &cfg)).collect();
+    let single = p.chance(1, 2);
+    let calls = gen_history(p, n, single, 40, false);
+    FwCase { id, kind: "c09".into(), machines, fp: 0.0, fb: 0.0, t0: 0, calls, rng_seed: p.next(), extreme: 0, ni: None }
+}
+
+/// C10: a draw-independent probe machine that never signals, next to arbitrary non-signalling
+/// neighbours; the harness also runs the probe alone on the projected history.
+fn gen_ni(p: &mut Prng, id: String) -> FwCase {
+    let mut probe_cfg = GenCfg::default();
+    probe_cfg.dist = DistMode::Const;
+    probe_cfg.prob_one = true;
+    probe_cfg.allow_signal = false;
+    probe_cfg.max_states = p.range(1, 4) as usize;
+    probe_cfg.density = 60;
+    let mut ncfg = GenCfg::default();
+    ncfg.dist = *p.pick(&[DistMode::Const, DistMode::Uniform, DistMode::All]);
+    ncfg.allow_signal = false;
+    ncfg.max_states = p.range(1, 4) as usize;
+    ncfg.density = 60;
+    let n = p.range(2, 4) as usize;
+    let pos = p.below(n as u64) as usize;
+    let machines: Vec<Machine> = (0..n).map(|i| if i == pos { genm::gen_machine(p, &probe_cfg) } else { genm::gen_machine(p, &ncfg) }).collect();
+    let single = p.chance(1, 2);
+    let wild = p.chance(1, 3);
+    let calls = gen_history(p, n, single, 50, wild);
+    FwCase { id, kind: "ni".into(), machines, fp: 0.0, fb: 0.0, t0: 0, calls, rng_seed: p.next(), extreme: 0, ni: Some(pos) }
+}
+
+pub fn gen_kind(kind: &str, p: &mut Prng, id: String) -> Option<FwCase> {
     match kind {
+        "c07" => Some(gen_c07(p, id)),
+        "c08" => Some(gen_c08(p, id)),
+        "c09" => Some(gen_c09(p, id)),
+        "ni" => Some(gen_ni(p, id)),
         _ => None,
     }
 }
